@@ -92,6 +92,15 @@ check('C07', 'model_checking',
       'TLA+ scanner automata of the target dialects judge the rendered literals; TLC-enumerated values',
       'DESIGN.md 2.4, 5/C07')
 
+check('C16', 'model_checking',
+      'RawQuery.tla transcribes tokens_to_string as a step machine; TLC proves it stores every layout of 3 tokens '
+      'verbatim when token values equal their lexemes and exhibits the loss when the lexer rewrote a value; RawGen '
+      'enumerates inner token sequences x separators, each embedded in 11 commands; the stored text is judged by TLC '
+      '(same lexemes as written; equal to the transcription) and valid inner SELECTs must re-parse to the same tree.',
+      'Lexemes are those of the dialect lexer; bounded sequence length; thorough samples length-3 sequences.',
+      'TLA+ transcription of the text rebuild + TLC-enumerated inner queries, stored texts judged by TLC',
+      'DESIGN.md 2.4, 5/C16')
+
 ALL = ['C%02d' % i for i in range(1, 21)]
 
 
